@@ -6,6 +6,6 @@ CONSTANTS
   MaxOps = 6
   Notifs <- NotifsS
   MaxNotif = 2
-  Bug = "cmdOnly"
+  Bug = "none"
   OneQueryPerCmd = FALSE
 CHECK_DEADLOCK FALSE
